@@ -1252,6 +1252,12 @@ func main() {
 	defer x.c.stop()
 
 	x.findings()
+	// every documented prefix exactly, one byte short, one byte more; the neighbours of the MessagePack map range
+	for _, h := range []string{"", "39025856", "390258", "3902585600", "39025857", "7b", "7a", "5348", "53", "534800", "5349",
+		"de", "de00", "de0000", "df", "df000000", "df00000000", "80", "8f", "7f", "90", "81", "c0", "dd", "cac106", "cac10600", "00", "ff"} {
+		p, _ := hex.DecodeString(h)
+		x.pktCase("boundary", p, true)
+	}
 	for i := 0; i < *n; i++ {
 		jsonSafe := i%3 != 0
 		b := g.batch(jsonSafe)
